@@ -241,3 +241,10 @@ def repo_commit():
             stderr=subprocess.DEVNULL).decode().strip()
     except Exception:
         return 'unknown'
+
+
+def jsonable_equal(a, b):
+    """Equality after JSON normalisation (tuples == lists etc.)."""
+    na = json.loads(json.dumps(a, default=_json_default))
+    nb = json.loads(json.dumps(b, default=_json_default))
+    return na == nb
